@@ -383,7 +383,48 @@ func restC17(o *Opts) {
 				p := []string{base + "/records", "/api/v1/collections", base + "/search"}[rng.Intn(3)]
 				send("POST", p, []byte([]string{"{", "[1", `{"name":5}`, `[{"id":"x"}]`, ""}[rng.Intn(5)]), "malformed-body")
 			default:
-				// kill -9 and restart on the same data folder
+				// kill -9 and restart on the same data folder. What an exhaustive vector search answers
+				// (ids, distances, order) is part of "served unchanged": it depends on the stored vectors,
+				// the metric and the quantization, none of which the listing shows.
+				probe := func(c string) string {
+					v := make([]float64, dims[c])
+					for x := range v {
+						v[x] = 0.25 + float64(x)*0.5
+					}
+					r := srv.do("POST", "/api/v1/collections/"+esc(c)+"/search", []byte(jsonS(map[string]any{"vector": v, "k": 6, "precision": "exact"})))
+					// canonical form that does not depend on the order among equal distances: the distance
+					// sequence, and the ids grouped by distance (the last group may be cut by k: only its size counts)
+					var out struct {
+						Results []struct {
+							ID       uint64  `json:"id"`
+							Distance float64 `json:"distance"`
+						} `json:"results"`
+					}
+					if r.Status != 200 || json.Unmarshal(r.Body, &out) != nil {
+						return fmt.Sprintf("%d %s", r.Status, abbreviate(string(r.Body), 100))
+					}
+					var parts []string
+					for i := 0; i < len(out.Results); {
+						j := i
+						var grp []uint64
+						for j < len(out.Results) && out.Results[j].Distance == out.Results[i].Distance {
+							grp = append(grp, out.Results[j].ID)
+							j++
+						}
+						sort.Slice(grp, func(a, b int) bool { return grp[a] < grp[b] })
+						if j == len(out.Results) && len(out.Results) == 6 {
+							parts = append(parts, fmt.Sprintf("%v:%d-of-tie", out.Results[i].Distance, len(grp)))
+						} else {
+							parts = append(parts, fmt.Sprintf("%v:%v", out.Results[i].Distance, grp))
+						}
+						i = j
+					}
+					return "200 " + strings.Join(parts, " ")
+				}
+				before := map[string]string{}
+				for c := range dims {
+					before[c] = probe(c)
+				}
 				srv.kill()
 				if !srv.start() {
 					res.Violate("impl-failure", "C17/restart-failed", "the server did not come back on its data folder: "+abbreviate(srv.log.String(), 300), map[string]any{"history": h})
@@ -398,6 +439,10 @@ func restC17(o *Opts) {
 					if _, ok := dims[c]; ok {
 						send("GET", "/api/v1/collections/"+esc(c), nil, "after-restart-info")
 						send("POST", "/api/v1/collections/"+esc(c)+"/search", []byte("{}"), "after-restart-listing")
+						if after := probe(c); after != before[c] {
+							res.Violate("impl-failure", "C17/search-differs-after-restart", fmt.Sprintf("collection %q: the same exhaustive k-nearest search answered %s before the restart and %s after it", c, abbreviate(before[c], 160), abbreviate(after, 160)),
+								map[string]any{"history": h, "collection": c, "before": before[c], "after": after})
+						}
 					}
 				}
 			}
